@@ -44,6 +44,7 @@ BOUNDS = {
     "step_string": "skeleton fixed per item; target = any str with 0 < len <= L (L in item label) resolved by a standard attempt; every configuration/history/reenter; source fixed per item",
     "step_unres": "skeleton fixed per item; target = str of <= maxlen chars over the skeleton's key alphabet + '.#' that no standard attempt resolves",
     "snapshot_legal": "skeleton fixed per item; every legal configuration + reachable history",
+    "step_abort": "skeleton fixed per item; as step_node (reenter False) plus: one state (symbolic) whose entry or exit list (symbolic) ends with an action nobody implements, so the transition aborts in the middle of its entry or exit phase; the configuration must be legal at every observation point and equal to the one before",
 }
 ASSUMPTIONS = [
     "pre-state of a step obligation is constructed directly (interp._active_state_nodes / _history): the configuration is an arbitrary legal one (symbolic choice per active compound state), the recorded history is one of the assignments that a native breadth-first exploration of public send() calls over a driver alphabet (SET:<child>, GOTO:<state>) reaches together with that configuration (harness/common.Reach); pre-states reachable only through transitions outside that alphabet are not covered",
@@ -216,6 +217,47 @@ def step_node(eng: int, c0: int, c1: int, c2: int, c3: int, c4: int, c5: int, hs
     return verdict(_post_ok(interp, sk, watch), nontrivial=err is None)
 
 
+def step_abort(eng: int, c0: int, c1: int, c2: int, c3: int, c4: int, c5: int, hsel: int,
+               srcsel: int, tgt: int, bad: int, where: int) -> bool:
+    """
+    pre: 0 <= eng <= 1
+    pre: gate('step_abort', eng=eng, c0=c0, c1=c1, c2=c2, c3=c3, c4=c4, c5=c5, hsel=hsel, srcsel=srcsel, tgt=tgt, bad=bad, where=where)
+    post: _
+    """
+    from xstate_statemachine.events import Event
+    from xstate_statemachine.models import ActionDefinition, TransitionDefinition
+
+    sk = _sk()
+    target = _node_for(tgt)
+    pre = _prestate(sk, eng, [c0, c1, c2, c3, c4, c5], hsel)
+    if pre is None:
+        return verdict(True, nontrivial=False)
+    interp, active, watch = pre
+    src = active[pick(srcsel, len(active))]
+    real = [n for n in sk.nodes if n.type != "history"]
+    victim = real[pick(bad, len(real))]
+    attr = "entry" if pick(where, 2) == 0 else "exit"
+    saved = list(getattr(victim, attr))
+    before = sorted(n.id for n in active)
+    # the victim's entry (or exit) list gets an action nobody implements, placed AFTER its marker: the abort strikes in the
+    # middle of the entry (exit) phase, when other states have already been entered (exited)
+    setattr(victim, attr, saved + [ActionDefinition("c01_not_implemented")])
+    try:
+        tr = TransitionDefinition("E", {"target": "#" + target.id, "reenter": False}, source=src)
+        LAST.update({"src": src.id, "target": "#" + target.id, "reenter": False, "victim": victim.id, "attr": attr})
+        err = _run_transition(interp, eng, tr, Event("E"))
+    finally:
+        setattr(victim, attr, saved)
+    ok = _post_ok(interp, sk, watch)
+    if ok and err is not None:
+        after = sorted(n.id for n in interp._active_state_nodes)
+        if after != before:
+            _note(f"transition {src.id} -> #{target.id} aborted with {err} ({attr} of {victim.id} not implemented) but the configuration "
+                  f"changed: {before} -> {after}")
+            ok = False
+    return verdict(ok, nontrivial=err is not None)
+
+
 def _resolvable(tgt: str, src: Any, machine: Any) -> bool:
     """True iff one of the engines' four standard resolution attempts
     succeeds (the precondition calls the REAL resolver)."""
@@ -362,6 +404,7 @@ OBLIGATIONS = {
     "step_string": step_string,
     "step_unres": step_unres,
     "snapshot_legal": snapshot_legal,
+    "step_abort": step_abort,
 }
 
 
@@ -414,6 +457,12 @@ def items(tier: str, seed: int) -> List[Dict[str, Any]]:
     for sid, spec in fam:
         out.append({"ob": "step_node", "params": {"sid": sid, "spec": spec}, "timeout": 150 if quick else 300,
                     "label": f"step_node[{sid}]"})
+    for sid, spec in (cur if not quick else [(k, v) for k, v in cur if k in ("CUR2", "CUR4", "CUR10")]):
+        n = _count_nodes(spec)
+        step = 1 if not quick else 2
+        for t in range(0, n, step):
+            out.append({"ob": "step_abort", "params": {"sid": sid, "spec": spec, "tgts": [t, min(n, t + step)]},
+                        "timeout": 300 if quick else 900, "label": f"step_abort[{sid},tgt={t}..{min(n, t + step) - 1}]"})
     str_skels = ["CUR2", "CUR4", "CUR8", "CUR9"] if quick else list(skeletons.CURATED)
     for sid in str_skels:
         spec = skeletons.CURATED[sid]
